@@ -585,4 +585,6 @@ func TestRegress(t *testing.T)   { run.Regress(t, spec) }
 func TestReplay(t *testing.T) {
 	run.ReplayOne(t, spec)
 	run.ReplayOne(t, bigSpec)
+	run.ReplayOne(t, concSpec)
+	run.ReplayOne(t, heavySpec)
 }
